@@ -120,6 +120,7 @@ class Config:
         self.validate_every = 1
         self.use_cvc5 = True
         self.incremental_first = True  # linear-ish harnesses; nonlinear ones switch it off
+        self.sample_cex = False  # harnesses with uninterpreted elementary functions switch it on
 
 
 class Explorer:
@@ -155,6 +156,9 @@ class Explorer:
                 rep.inconclusive.append(f"{label}:path{n}:abandoned:{e}")
             except PathAbort:
                 raise
+            except Exception as e:  # noqa: BLE001
+                rep.harness_errors.append(
+                    f"{label}:path{n}: {type(e).__name__}: {e}\n{traceback.format_exc()[-1800:]}")
             finally:
                 Session.active = False
                 sym.set_cur(None)
@@ -426,6 +430,13 @@ class PathCtx:
                         matched = (kf, ent)
                         break
                 confirmed, info = self._replay(name, m, case)
+                if not confirmed and self.ex.cfg.sample_cex:
+                    # the model's interpretation of exp/sin/... need not be the true one:
+                    # realise the solver's counterexample at a point where the claim fails
+                    # under the true functions (still replayed on the real code below)
+                    confirmed, info2 = self._sample_cex(name, claim, excl, case)
+                    if confirmed:
+                        info = info2
                 if not confirmed:
                     # try once more for a model with the candidate excluded? no: a
                     # non-reproducing model is an encoding problem.
@@ -447,10 +458,45 @@ class PathCtx:
         finally:
             cls[2] += time.time() - t0
 
-    def _replay(self, name, model, case):
+    def _sample_cex(self, name, claim, excl, case, tries=400):
+        import random
+
+        from .diff import feval, feval_struct
+
+        rnd = random.Random(12345)
+        names = list(self.syms)
+        grid = [k / 8 for k in range(-32, 33)]
+        small = [-2.0, -1.0, -0.5, 0.0, 0.5, 1.0, 2.0, 3.0]
+        for _ in range(tries):
+            env = {}
+            for n in names:
+                v = self.syms[n]
+                if v.sort() == z3.IntSort():
+                    env[n] = rnd.randint(-3, 3)
+                elif v.sort() == z3.BoolSort():
+                    env[n] = rnd.random() < 0.5
+                else:
+                    env[n] = rnd.choice(small if "j_" in n else grid)
+            try:
+                if not all(feval(c, env, self) for c in self.constraints):
+                    continue
+                if feval(claim, env, self):
+                    continue
+                if not all(feval(c, env, self) for c in excl):
+                    continue
+            except (KeyError, ZeroDivisionError, ValueError, OverflowError, NotImplementedError):
+                continue
+            conc = lambda x: feval_struct(x, env, self)  # noqa: E731
+            ok, info = self._replay(name, None, case, conc=conc)
+            if ok:
+                return ok, info
+        return False, {}
+
+    def _replay(self, name, model, case, conc=None):
         if case is None:
             return False, {"detail": "no replay case provided"}
-        conc = lambda x: sym.concretize(model, x)  # noqa: E731
+        if conc is None:
+            conc = lambda x: sym.concretize(model, x)  # noqa: E731
         Session.active = False
         saved = sym._CTX[0]
         sym.set_cur(None)
@@ -496,7 +542,22 @@ class PathCtx:
             self.rep.inconclusive.append(f"{self.label}:path{self.idx}:reach:{name}")
         return None
 
-    def validate(self, name, sym_out, case, model=None, rtol=1e-7, atol=1e-9, exact=False):
+    def model_env(self, model):
+        """{constant name: float} for every constant of the model / declared symbol."""
+        env = {}
+        for d in model.decls():
+            if d.arity() == 0:
+                try:
+                    env[d.name()] = float(sym.model_fraction(model, d()))
+                except Exception:  # noqa: BLE001
+                    pass
+        for n, v in self.syms.items():
+            if n not in env:
+                env[n] = float(sym.model_fraction(model, v))
+        return env
+
+    def validate(self, name, sym_out, case, model=None, rtol=1e-7, atol=1e-9, exact=False,
+                 true_functions=False):
         """Witness replay: run the real code on a witness of this path and compare with the
         symbolic outputs evaluated under the same witness (validates the encoding)."""
         if model is None:
@@ -509,7 +570,12 @@ class PathCtx:
         sym.set_cur(None)
         try:
             c = case(conc)
-            expected = conc(sym_out)
+            if true_functions:
+                from .diff import feval_struct
+
+                expected = feval_struct(sym_out, self.model_env(model), self)
+            else:
+                expected = conc(sym_out)
             got = self.ex.module.concrete_run(c)
             ok, why = _compare(expected, got, rtol, atol)
         except Exception as e:  # noqa: BLE001
